@@ -18,6 +18,7 @@ type PropSpec struct {
 	Assumptions []string `json:"assumptions"`
 	Trusted     []string `json:"trusted"`
 	Floor       int      `json:"floor"`
+	WorkerRules bool     `json:"worker_rules"`
 	Note        string   `json:"note"`
 }
 
@@ -177,6 +178,9 @@ func cmdCheck(args []string) int {
 		for _, e := range lemRes.Errors {
 			addViol("lemma/contract", e, e, nil, false, nil)
 		}
+	}
+	if spec.WorkerRules {
+		results = append(results, structuralWorkerObligations(P))
 	}
 	solveAll(exs, results, cfg)
 
